@@ -19,8 +19,9 @@ theorem sections_transcribed :
     Generated.testifyExpecterMethod = expectedTestifyExpecterMethod ∧
     Generated.testifyRunWrapper = expectedTestifyRunWrapper ∧
     Generated.testifyReturnWrapper = expectedTestifyReturnWrapper ∧
-    Generated.testifyRunAndReturnWrapper = expectedTestifyRunAndReturnWrapper := by
-  exact ⟨rfl, rfl, rfl, rfl, rfl⟩
+    Generated.testifyRunAndReturnWrapper = expectedTestifyRunAndReturnWrapper ∧
+    Generated.testifyConstructor = expectedTestifyConstructor := by
+  exact ⟨rfl, rfl, rfl, rfl, rfl, rfl⟩
 
 /-! ### argument packing -/
 
